@@ -3,6 +3,7 @@ package rules
 import (
 	"go/ast"
 	"go/token"
+	"go/types"
 
 	"lachk/core"
 )
@@ -13,28 +14,27 @@ import (
 // that pairs every branch with one fixed branch misses it, and ForklessCause then answers 'true' for
 // an event whose ancestry shows a fork by that creator.
 //
-// The overlap test is looked for in fillEventVectors and in every vecengine function it reaches through
-// static calls (the pair scan may live in a helper); the two loops are recognised as iterations
-// (range or counted, element taken by value variable, by index, or through single-definition locals).
+// The overlap test is looked for in the inlined view of fillEventVectors (c05Frames: its own body and
+// every vecengine function it reaches through static calls, one activation per call site). The test
+// may be a branch condition, the result of a named predicate helper or a stored boolean; its operands
+// are read back through the parameter bindings of the helpers to the loops that produce them, wherever
+// those loops live (both in one function, or the outer one in a caller of the function holding the
+// inner one). The two loops are recognised as iterations (range or counted, element taken by value
+// variable, by index, or through single-definition locals).
 func c05ForkPairs(c *core.Ctx) {
 	c.Clause("C05.forkpairs", func() {
 		root := c.Fn("vecengine.Engine.fillEventVectors")
-		// overlap tests: branch conditions containing both MinSeq(..) and Seq(..) calls on the vector
+		inEngine := func(g *core.FuncInfo) bool { return core.RelPkg(g.Pkg.PkgPath) == "vecengine" }
+		// overlap tests: outermost boolean expressions containing both MinSeq(..) and Seq(..) calls on the vector
 		type test struct {
-			f    *core.FuncInfo
+			fr   *c05Frame
 			cond ast.Expr
 			args []ast.Expr
 		}
 		var tests []test
-		for _, f := range core.ReachableFuncs(c.P, []*core.FuncInfo{root}, false) {
-			if core.RelPkg(f.Pkg.PkgPath) != "vecengine" {
-				continue
-			}
-			for _, b := range f.CFG().Blocks {
-				cond := f.BranchCond(b)
-				if cond == nil || !b.Live {
-					continue
-				}
+		for _, fr := range c05Frames(root, 4, inEngine) {
+			f := fr.F
+			for _, cond := range c05LogicalExprs(f) {
 				var mins []*ast.CallExpr
 				hasSeq := false
 				ast.Inspect(cond, func(n ast.Node) bool {
@@ -52,7 +52,7 @@ func c05ForkPairs(c *core.Ctx) {
 				if len(mins) == 0 || !hasSeq {
 					continue
 				}
-				t := test{f: f, cond: cond}
+				t := test{fr: fr, cond: cond}
 				for _, m := range mins {
 					if len(m.Args) == 1 {
 						t.args = append(t.args, m.Args[0])
@@ -63,8 +63,14 @@ func c05ForkPairs(c *core.Ctx) {
 		}
 		c.ExpectAtLeast("branch-overlap tests in fillEventVectors", len(tests), 1)
 
-		// the iteration (loop over a collection) whose current element the expression denotes
-		iterOf := func(f *core.FuncInfo, x ast.Expr) *core.Iteration {
+		// the iteration (loop over a collection) whose current element the operand denotes, with its frame
+		type loopAt struct {
+			fr *c05Frame
+			it *core.Iteration
+		}
+		iterOf := func(fr *c05Frame, arg ast.Expr) *loopAt {
+			fr, x := c05Resolve(fr, arg)
+			f := fr.F
 			resolve := func(e ast.Expr) ast.Expr { return resolveLocal(f, e) }
 			var found *core.Iteration
 			f.InspectOwn(func(n ast.Node) bool {
@@ -79,48 +85,72 @@ func c05ForkPairs(c *core.Ctx) {
 				}
 				return true
 			})
-			return found
+			if found == nil {
+				return nil
+			}
+			return &loopAt{fr, found}
 		}
-		// the collection is the full list of one creator's branches: BranchIDByCreators[k] (not a sub-slice)
-		creatorOf := func(f *core.FuncInfo, it *core.Iteration) (ast.Expr, bool) {
+		// the collection is the full list of one creator's branches: BranchIDByCreators[k] (not a sub-slice);
+		// k is returned as the variable (and its frame) that selects the creator
+		creatorOf := func(l *loopAt) (*c05Frame, *types.Var, bool) {
+			it := l.it
 			if it.Coll == nil || !it.FromZero {
-				return nil, false
+				return nil, nil, false
 			}
-			ix, ok := ast.Unparen(resolveLocal(f, it.Coll)).(*ast.IndexExpr)
+			cfr, coll := c05Resolve(l.fr, it.Coll)
+			ix, ok := ast.Unparen(coll).(*ast.IndexExpr)
 			if !ok {
-				return nil, false
+				return nil, nil, false
 			}
-			_, pth := fieldPath(f, ix.X)
+			_, pth := fieldPath(cfr.F, ix.X)
 			if len(pth) == 0 || pth[len(pth)-1] != "vecengine.BranchesInfo.BranchIDByCreators" {
-				return nil, false
+				return nil, nil, false
 			}
-			return ix.Index, true
+			kfr, kv := c05VarIn(cfr, ix.Index)
+			return kfr, kv, kv != nil
 		}
-		sameIndex := func(f *core.FuncInfo, a, b ast.Expr) bool {
-			va, vb := canonVar(f, varOf(f, core.StripConv(f.Info(), a))), canonVar(f, varOf(f, core.StripConv(f.Info(), b)))
-			return va != nil && va == vb
-		}
-		for _, t := range tests {
-			f := t.f
-			ok := len(t.args) == 2 && canonVar(f, varOf(f, t.args[0])) != canonVar(f, varOf(f, t.args[1]))
-			if ok {
-				i0, i1 := iterOf(f, t.args[0]), iterOf(f, t.args[1])
-				ok = i0 != nil && i1 != nil && i0.Stmt != i1.Stmt &&
-					((i0.Stmt.Pos() <= i1.Stmt.Pos() && i1.Stmt.End() <= i0.Stmt.End()) || (i1.Stmt.Pos() <= i0.Stmt.Pos() && i0.Stmt.End() <= i1.Stmt.End()))
-				if ok {
-					// both loops range over all branches of the same creator
-					k0, full0 := creatorOf(f, i0)
-					k1, full1 := creatorOf(f, i1)
-					ok = full0 && full1 && sameIndex(f, k0, k1)
+		// nested: the inner loop runs completely inside each iteration of the outer one
+		within := func(outer, inner *loopAt) bool {
+			if outer.fr == inner.fr {
+				return outer.it.Stmt != inner.it.Stmt && outer.it.Body != nil && outer.it.Body.Pos() <= inner.it.Stmt.Pos() && inner.it.Stmt.End() <= outer.it.Body.End()
+			}
+			// the inner loop lives in a helper: the call on the chain towards it is made in the outer loop's body
+			for fr := inner.fr; fr.Up != nil; fr = fr.Up {
+				if fr.Up == outer.fr {
+					return outer.it.Body != nil && outer.it.Body.Pos() <= fr.At.Call.Pos() && fr.At.Call.End() <= outer.it.Body.End()
 				}
 			}
-			c.Check(ok, "undetected forks are searched over every pair of the creator's branches", "T8 coverage (nested iterations over the same branch list)", t.cond.Pos(),
+			return false
+		}
+		for _, t := range tests {
+			f := t.fr.F
+			ok := len(t.args) == 2
+			if ok {
+				fr0, v0 := c05VarIn(t.fr, t.args[0])
+				fr1, v1 := c05VarIn(t.fr, t.args[1])
+				ok = !(v0 != nil && fr0 == fr1 && v0 == v1) // the two operands are different branches
+			}
+			if ok {
+				l0, l1 := iterOf(t.fr, t.args[0]), iterOf(t.fr, t.args[1])
+				ok = l0 != nil && l1 != nil && (within(l0, l1) || within(l1, l0))
+				if ok {
+					// both loops range over all branches of the same creator
+					kf0, k0, full0 := creatorOf(l0)
+					kf1, k1, full1 := creatorOf(l1)
+					ok = full0 && full1 && kf0 == kf1 && k0 == k1
+				}
+			}
+			where := short(f.Name)
+			for fr := t.fr; fr.Up != nil; fr = fr.Up {
+				where += " called from " + short(fr.Up.F.Name) + " (" + c.P.Pos(fr.At.Pos()) + ")"
+			}
+			c.Check(ok, "undetected forks are searched over every pair of the creator's branches", "T8 coverage (nested iterations over the same branch list, inlined view)", t.cond.Pos(),
 				"both operands of the overlap test range independently over all branches of the same creator",
-				"the overlap test in "+short(f.Name)+" does not cover every pair of the creator's branches (an operand is fixed or ranges over a sub-list): a fork between two side branches is missed, ForklessCause answers true although the ancestry shows a fork by that creator")
+				"the overlap test in "+where+" does not cover every pair of the creator's branches (an operand is fixed or ranges over a sub-list): a fork between two side branches is missed, ForklessCause answers true although the ancestry shows a fork by that creator")
 		}
 		// the test is symmetric: MinSeq(a) <= Seq(b) && MinSeq(b) <= Seq(a)
 		for _, t := range tests {
-			f := t.f
+			f := t.fr.F
 			facts := core.Decompose(t.cond, true)
 			n := 0
 			for _, ft := range facts {
@@ -137,4 +167,38 @@ func c05ForkPairs(c *core.Ctx) {
 			c.Check(n == 2 && len(facts) == 2, "branches overlap iff each starts no later than the other ends", "T8 DecisionTable (normalised)", t.cond.Pos(), "MinSeq(a) <= Seq(b) && MinSeq(b) <= Seq(a)", "the overlap test is not the symmetric interval-overlap test")
 		}
 	})
+}
+
+// c05LogicalExprs lists the outermost logical expressions (comparisons and their combinations with
+// &&, ||, !) in f's own body: branch conditions, returned predicates, stored booleans and arguments
+// alike. An expression nested in another logical expression is not listed separately.
+func c05LogicalExprs(f *core.FuncInfo) []ast.Expr {
+	var out []ast.Expr
+	isLogical := func(n ast.Node) bool {
+		switch x := n.(type) {
+		case *ast.BinaryExpr:
+			switch x.Op {
+			case token.LAND, token.LOR, token.EQL, token.NEQ, token.LSS, token.LEQ, token.GTR, token.GEQ:
+				return true
+			}
+		case *ast.UnaryExpr:
+			return x.Op == token.NOT
+		}
+		return false
+	}
+	var covered []ast.Node
+	f.InspectOwn(func(n ast.Node) bool {
+		if n == nil || !isLogical(n) {
+			return true
+		}
+		for _, c := range covered {
+			if c.Pos() <= n.Pos() && n.End() <= c.End() {
+				return true
+			}
+		}
+		covered = append(covered, n)
+		out = append(out, n.(ast.Expr))
+		return true
+	})
+	return out
 }
